@@ -193,6 +193,19 @@ func streamCase(w streamWit) (kind, detail string) {
 				return
 			}
 		}
+		// on disk the same file reached through a second name (a symbolic link made by the host): the
+		// stored bytes are the target's (what the node's own metadata says about a link is another matter)
+		if lp, ok := fs.(interface{ LocalPath() string }); ok && w.Backend == "disk" {
+			if err := os.Symlink("f", filepath.Join(lp.LocalPath(), "d", "link-to-f")); err == nil {
+				for _, op := range []treefs.Op{{Kind: "ReadFile", P: "d/link-to-f"}, {Kind: "Reader", P: "d/link-to-f", Buf: w.Buf}, {Kind: "Reader", P: "d/link-to-f", Buf: w.Buf, Via: "copy"}} {
+					rl := fsx.Exec(fs, op)
+					if !rl.OK() || rl.Data != data {
+						kind, detail = "reader-mismatch/through-symlink", fmt.Sprintf("%s on a symbolic link to the file: err=%q panic=%q returned %d bytes, stored %d: %s", fsx.OpString(op), rl.Err, rl.Panic, len(rl.Data), len(data), shortDiff(rl.Data, data))
+						return
+					}
+				}
+			}
+		}
 	})
 	if kind == "" && (res.Deadlock || res.Horizon) {
 		kind, detail = "blocks-forever", fmt.Sprint(res.Blocked)
@@ -1055,7 +1068,7 @@ func replay(wj json.RawMessage) (*fw.Violation, error) {
 
 func init() {
 	fw.Register(&fw.Check{ID: "C04", Level: "fault_enumeration",
-		Rule: "streams: backends{mem,disk,enc-mem,enc-disk,cache-mem} x contents{'', 'x', 'xyz', 5KiB} x every split into <=3 chunks (incl. empty chunks; fixed cut points for the long content; all chunks through Write, and Write / io.WriteString / io.Copy in turn on one handle) x previous destination{absent,empty,shorter,longer,equal,directory} x read buffers{1,2,3,4096} (Read loop; io.Copy; a header taken with Read followed by io.Copy); two writers (then two readers) open at the same time on every backend pair, fed in alternation from one re-used caller buffer, both close orders, contents up to 40 KiB; copy helpers {fshelper.Copy, Copier.Do(dir), Copier.Do(file), StreamCopy} x 6 tree shapes (one with a 70 KiB file, i.e. several rounds of the 32 KiB copy loop; one with sibling names that differ by a scratch suffix .tmp ~ .new .part .bak, the suffixed file created first) x all 25 source/destination backend pairs, fault-free over 5 destination pre-states (empty, same paths with older longer/shorter content, unrelated nodes, regular files where the source has directories, directories where the source has files: nil result => every source node present with its kind and bytes) and with EVERY single numbered call (open/Read/Write/Close/MkdirAll/ReadDir/IsFile/IsDir/Filespace, on source and destination; error and short-write variants) failing, for encrypted backends also with the failing layer below the encryption; thorough adds every pair of failing calls (memory) and preemption bound 2 for the concurrent tree copy. distinct = cases; all run the real code",
+		Rule: "streams: backends{mem,disk,enc-mem,enc-disk,cache-mem} x contents{'', 'x', 'xyz', 5KiB} x every split into <=3 chunks (incl. empty chunks; fixed cut points for the long content; all chunks through Write, and Write / io.WriteString / io.Copy in turn on one handle) x previous destination{absent,empty,shorter,longer,equal,directory} x read buffers{1,2,3,4096} (Read loop; io.Copy; a header taken with Read followed by io.Copy; on disk also through a symbolic link to the file); two writers (then two readers) open at the same time on every backend pair, fed in alternation from one re-used caller buffer, both close orders, contents up to 40 KiB; copy helpers {fshelper.Copy, Copier.Do(dir), Copier.Do(file), StreamCopy} x 6 tree shapes (one with a 70 KiB file, i.e. several rounds of the 32 KiB copy loop; one with sibling names that differ by a scratch suffix .tmp ~ .new .part .bak, the suffixed file created first) x all 25 source/destination backend pairs, fault-free over 5 destination pre-states (empty, same paths with older longer/shorter content, unrelated nodes, regular files where the source has directories, directories where the source has files: nil result => every source node present with its kind and bytes) and with EVERY single numbered call (open/Read/Write/Close/MkdirAll/ReadDir/IsFile/IsDir/Filespace, on source and destination; error and short-write variants) failing, for encrypted backends also with the failing layer below the encryption; thorough adds every pair of failing calls (memory) and preemption bound 2 for the concurrent tree copy. distinct = cases; all run the real code",
 		Run: run, Replay: replay,
 		Assumptions: []string{"fault positions are the calls crossing the Filespace/Reader/Writer interfaces (harness-side wrapper)", "a bool query 'fails' by answering false", "fshelper.Copy runs under the controlled scheduler: default schedule for the fault sweep, bounded preemptions for the fault-free case"}})
 }
